@@ -44,6 +44,7 @@ def projectObs (prop : String) (req : List String) (obs : String) : String :=
   | "C19", "T" :: _ => (splitBar obs).1
   | "C19", _ => obs
   | "C02", _ => obs
+  | "C08", _ => obs
   | "C04", _ => obs
   | "C09", _ => obs
   | "C10", _ => obs
@@ -78,7 +79,13 @@ def handleLine (prop : String) (st : DState) (line : String) : DState × String 
         let b := projectObs prop reqCore (normCerr (normPanic m))
         if a = b then (if prop = "C02" then (structDiffC02 reqCore obs).map ("DIFF " ++ ·) else none)
         else some s!"DIFF impl=[{a}] model=[{b}]"
-    let (st', pc) := if prop = "C02" then (st, checkC02 reqParts obs) else if prop = "C09" then (st, checkC09Sem reqParts obs) else propCheck prop st reqParts obs
+    let (st', pc) := if prop = "C02" then (st, checkC02 reqParts obs) else if prop = "C09" then (st, checkC09Sem reqParts obs)
+      else if prop = "C08" then
+        -- the tree against chmod's rules, then the emitted comparison executed on directed modes
+        match propCheck prop st reqParts obs with
+        | (st', some why) => (st', some why)
+        | (st', none) => (st', checkC02 reqParts obs)
+      else propCheck prop st reqParts obs
     (st', match pc, diff with
     | some why, some d => s!"PFAIL {prop} {why} ;; {d}"
     | some why, none => s!"PFAIL {prop} {why}"
